@@ -65,7 +65,17 @@ def rec(fn_name, bound):
   """Called by targets as `return rec('name', locals())`."""
   bound = dict(bound)
   bound.pop('__class__', None)
+  note_kwargs_order(bound)
   return Rec(fn_name, bound)
+
+
+def note_kwargs_order(bound):
+  """The ORDER in which **kwargs arrived is part of what a callable observes (canonical forms
+  sort dict items, so it is recorded separately)."""
+  for nm in ('vk', 'kw'):
+    d = bound.get(nm)
+    if isinstance(d, dict) and len(d) > 1:
+      bound[nm + '#order'] = tuple(d)
 
 
 class Sentinel:
